@@ -53,6 +53,16 @@ impl WorkerSpec {
         });
         self
     }
+    /// a further resource of the given kind ("range1": indices 1..=n, "list": labels dev7, dev5, ...)
+    pub fn with_kind(mut self, name: &str, kind: &str, n: u32) -> Self {
+        self.resources.push(ResSpec {
+            name: name.into(),
+            kind: kind.into(),
+            n,
+            groups: vec![],
+        });
+        self
+    }
     pub fn cpu_groups(groups: &[u32]) -> Self {
         WorkerSpec {
             resources: vec![ResSpec {
